@@ -11,6 +11,8 @@ SLICES = {
     "timeout1":  (2, "K2_ok", 1, 1, 0, 1, 0, "TRUE", ["none", "shutdown_wait", "shutdown_nowait"], [], 2),
     "timeout2":  (2, "K2_ok", 1, 1, 0, 2, 0, "TRUE", ["none", "shutdown_wait", "shutdown_nowait"], [], 3),
     "crash":     (2, "K2_ok", 1, 1, 1, 0, 0, "FALSE", ["none", "shutdown_wait"], [], 2),
+    "crash2":    (1, "K1_ok", 2, 2, 1, 0, 0, "FALSE", ["shutdown_wait"], [], 2),
+    "huge":      (2, "K2_huge", 1, 2, 0, 0, 1, "FALSE", ["kill"], [], 2),
     "badarg":    (2, "K2_bad", 1, 1, 0, 0, 1, "FALSE", ["none", "shutdown_wait", "kill"], [], 2),
     "big":       (2, "K2_big", 1, 2, 1, 0, 0, "FALSE", ["none", "shutdown_wait"], [], 2),
     "kill":      (2, "K2_long", 1, 1, 0, 0, 1, "FALSE", ["kill"], [], 2),
@@ -21,15 +23,15 @@ SLICES = {
     "crash_tmo": (2, "K2_ok", 1, 1, 1, 1, 0, "TRUE", ["none", "shutdown_wait"], [], 3),
     "mix3":      (3, "K3_mix", 2, 2, 0, 1, 1, "TRUE", ["shutdown_wait", "shutdown_nowait"], [], 3),
 }
-QUICK = {"C01": ["cancel", "timeout0", "crash", "kill", "init"], "C02": ["crash", "init", "unload"],
-         "C03": ["cancel", "timeout0"], "C04": ["badarg", "unload"], "C05": ["timeout0", "cancel"], "C06": ["kill"],
+QUICK = {"C01": ["cancel", "timeout0", "crash", "kill", "init"], "C02": ["crash", "crash2", "init", "unload"],
+         "C03": ["cancel", "timeout0"], "C04": ["badarg", "unload"], "C05": ["timeout0", "cancel"], "C06": ["kill"], "C20": ["huge"],
          "C07": ["timeout0"], "C08": ["timeout0", "unload"]}
 THOROUGH_EXTRA = ["timeout1", "timeout2", "del", "taskcrash", "crash_tmo", "mix3", "big", "unload", "badarg"]
 INVS = ["AtMostOnce", "CancelMeansNeverRun", "RightFuture", "SlotConservation", "BoundedParallelism", "BrokenTotal",
         "TimeoutNeverBreaks", "CleanHandshakeOnly", "NoTimeoutWhileHolding"]
 # behaviour of the code as it is now (flipped by fix: commits); D17 = CancelWakes
 CODE_SWITCHES = {k: v for k, v in json.load(open(os.path.join(tlc.SPECS, "code_switches.json"))).items()
-                 if k in ("WakeAfterSpawn", "KeepRefs", "SafeFail", "CancelWakes")}
+                 if k in ("WakeAfterSpawn", "KeepRefs", "SafeFail", "CancelWakes", "JoinWatches", "CloseReaderOnKill")}
 
 
 def write_cfg(work, name, switches=None, invariants=INVS, spec="SpecF", symmetry=True, extra=""):
@@ -99,9 +101,9 @@ WLABEL = {"w0": "start", "winit": "init", "wrl": "cq.rlock.acq", "wpoll": "cq.r.
           "wsem": "cq.sem.rel", "wrlrel": "cq.rlock.rel", "wunl": "task.run", "wrun": "task.run", "wbody": "task.run",
           "wwl": "rq.wlock.acq", "wsend": "rq.w.send", "wsend2": "rq.w.send2", "wwrel": "rq.wlock.rel", "wtmo": "mgmt.try",
           "wmrel": "mgmt.rel", "wann": "rq.wlock.acq", "wann2": "rq.w.send", "wann3": "rq.wlock.rel", "wexl": "exitlock", "wexit": "exitlock"}
-KINDMAP = {"ok": "ok", "bad_arg": "unpicklable_arg", "crash": "crash", "long": "long", "big": "big", "unload": "unloadable_arg"}
-KINDS = {"K2_ok": ["ok", "ok"], "K2_bad": ["bad_arg", "ok"], "K2_crash": ["crash", "ok"], "K2_big": ["big", "ok"],
-         "K2_long": ["long", "ok"], "K3_mix": ["bad_arg", "ok", "big"], "K2_unload": ["unload", "ok"]}
+KINDMAP = {"ok": "ok", "bad_arg": "unpicklable_arg", "crash": "crash", "long": "long", "big": "big", "unload": "unloadable_arg", "huge": "hugearg"}
+KINDS = {"K1_ok": ["ok"], "K2_ok": ["ok", "ok"], "K2_bad": ["bad_arg", "ok"], "K2_crash": ["crash", "ok"], "K2_big": ["big", "ok"],
+         "K2_long": ["long", "ok"], "K2_huge": ["long", "huge"], "K3_mix": ["bad_arg", "ok", "big"], "K2_unload": ["unload", "ok"]}
 
 
 def plan_from_behaviour(name, beh, seed):
